@@ -65,6 +65,23 @@ class _ArrayToScalar(ast.NodeTransformer):
         return n
 
 
+def _shape(stmts: List[ast.stmt]):
+    """Statement kinds and assignment targets, recursively (expressions on the right-hand sides are not part of the shape)."""
+    out = []
+    for s in stmts:
+        if isinstance(s, ast.For):
+            out.append(("For", norm(s.target), _shape(s.body)))
+        elif isinstance(s, ast.If):
+            out.append(("If", _shape(s.body), _shape(s.orelse)))
+        elif isinstance(s, ast.Assign):
+            out.append(("Assign", tuple(norm(t) for t in s.targets)))
+        elif isinstance(s, ast.AugAssign):
+            out.append(("AugAssign", norm(s.target), type(s.op).__name__))
+        else:
+            out.append((type(s).__name__,))
+    return out
+
+
 def _dump(stmts: List[ast.stmt]) -> List[str]:
     return [ast.dump(s, annotate_fields=False, include_attributes=False) for s in stmts]
 
@@ -123,6 +140,11 @@ def run(ctx: Context) -> None:
         ok = ds == da
         n_twins += 1
         key = f"{IND}:{array}|twin-of-{scalar}"
+        if not ok and _shape(_body(fs)) != _shape(tb):
+            # a twin that was rewritten with a different statement structure (another algorithm) cannot be compared
+            # syntactically: undecided, not a violation
+            raise AnalysisError(f"C06a: {array} and {scalar} no longer have the same statement structure; the twin comparison cannot decide "
+                                f"whether they agree (undecided)")
         ctx.obligation("C06a", key, ok, f"{ctx.relpath(fa.file)}:{fa.line}")
         if not ok:
             i = next((k for k in range(min(len(ds), len(da))) if ds[k] != da[k]), min(len(ds), len(da)))
